@@ -261,8 +261,43 @@ def _task_edits(task):
                 except BaseException as e:  # noqa: BLE001
                     t.violation({"kind": "sweep-aborted", "exc": type(e).__name__, "part": "attribute-edits"}, case, observed=str(e)[:200])
                 t.nontrivial += 1
+    # the same corrections made to the container instead: the parameter object in its entry list is replaced IN PLACE (item assignment on the
+    # list the definition holds) by a parameter of the second kind, and one more byte-wide parameter is appended - after the first packet
+    for (old, new) in EDIT_PAIRS:
+        for use_first in (True, False):
+            case = {"attr_edits": True, "old": list(old), "new": list(new), "order": ["entry_list item replaced, one appended"], "offset": offset, "decoded_before_edit": use_first}
+            try:
+                with case_alarm(60), warnings.catch_warnings():
+                    warnings.simplefilter("ignore")
+                    pts, prs, ents, tail = docs.framed_field_variant(ptype_for(old, 0), offset, old[1], "0")
+                    doc = docs.selector_doc([(pts, prs, ents)])
+                    from mc.spec import Param, PType
+                    doc2 = dataclasses.replace(doc, ptypes=tuple(ptype_for(new, 0) if p.name == "T0" else p for p in doc.ptypes) + (PType("EXTRA_T", "Integer", IntEnc(8)),),
+                                               params=tuple(doc.params) + (Param("EXTRA", "EXTRA_T"),),
+                                               containers=tuple(dataclasses.replace(c, entries=tuple(c.entries) + (("p", "EXTRA"),)) if any(e == ("p", "F_0") for e in c.entries) else c
+                                                                for c in doc.containers))
+                    defn = load_doc(doc)
+                    donor = load_doc(doc2)
+                    if use_first:
+                        parse_one(defn, docs.packet_for(0, "1" * offset + "01" * (old[1] // 2) + "0" * 8 + "1" * tail))
+                    cname = next(c.name for c in doc.containers if any(e == ("p", "F_0") for e in c.entries))
+                    el = defn.containers[cname].entry_list
+                    idx = next(k for k, e in enumerate(el) if getattr(e, "name", None) == "F_0")
+                    el[idx] = donor.containers[cname].entry_list[idx]
+                    el.append(donor.containers[cname].entry_list[-1])
+                    w = new[1]
+                    for v in (1, (1 << w) - 2, int(("1100" * w)[:w], 2), 1 << (w - 1)):
+                        pkt = docs.packet_for(0, "1" * offset + format(v, f"0{w}b") + "1" * 8 + "1" * tail + "01011010")
+                        why = compare_outcome(decode_packet(doc2, pkt), parse_one(defn, pkt))
+                        t.evals += 1
+                        if why:
+                            t.violation({"kind": "decode-mismatch", "family": "int", "after": "entry list edited in place on the loaded definition"},
+                                        {**case, "packet": pkt.hex()}, note=why)
+                            break
+            except BaseException as e:  # noqa: BLE001
+                t.violation({"kind": "sweep-aborted", "exc": type(e).__name__, "part": "entry-list-edits"}, case, observed=str(e)[:200])
+            t.nontrivial += 1
     return t
-
 
 def _check_separate_objects(t: Tally):
     """Two encodings built with the public constructors, nothing but the required arguments: they are two objects.  A context calibrator
